@@ -24,6 +24,26 @@ func loopFacts(s *src, f *facts) {
 		async = goDepth(respLoop, pubCall) >= 1
 	}
 	f.b("respPublishAsync", async, s.pos(pubCall))
+	// fire-and-forget: the publish is a statement of its own (`go X.Publish(…)` / `X.Publish(…)`) — nothing is decided
+	// on whether somebody took the value — and a goroutine that wraps it reports nothing to setErr: a response nobody
+	// waits for (its call was cancelled, has ended, never existed) is dropped, whatever it carries
+	fireAndForget := false
+	if pubCall != nil && respLoop != nil {
+		for _, g := range all[*ast.GoStmt](respLoop, nil) {
+			if g.Call == pubCall {
+				fireAndForget = true
+			}
+		}
+		for _, e := range all[*ast.ExprStmt](respLoop, nil) {
+			if e.X == ast.Expr(pubCall) {
+				fireAndForget = true
+			}
+		}
+		if fl := enclosing[*ast.FuncLit](respLoop, pubCall); fl != nil && len(s.callsTo(fl.Body, "setErr")) > 0 {
+			fireAndForget = false
+		}
+	}
+	f.b("respPublishFireAndForget", fireAndForget, s.pos(pubCall))
 	// the response variable
 	resVar := ""
 	if respLoop != nil {
